@@ -335,7 +335,7 @@ func c17Units(tier string) []*Unit {
 	if tier == "thorough" {
 		us = append(us, c17Direct(c17cfg{mode: "prefixed", threads: 3}))
 	}
-	us = append(us, c17Exec("group", false, tier), c17Exec("group", true, tier), c17Exec("prefixed", false, tier), c17ErrorOnlyIgnored(tier), c17ExternalProcessUnit())
+	us = append(us, c17Exec("group", false, tier), c17Exec("group", true, tier), c17Exec("prefixed", false, tier), c17ErrorOnlyIgnored(tier), c17ExternalProcessUnit(), c17IncludedOutputUnit())
 	return us
 }
 
@@ -436,6 +436,88 @@ func c17ExternalProcessUnit() *Unit {
 		}
 		res.Extra["samples"] = samples
 		res.Stats = vlab.Stats{Scenario: name, Execs: n, States: n, Transitions: n, Outcomes: 1, Exhaustive: true}
+		return res
+	}}
+}
+
+// Output settings and prefixes of tasks that come from included Taskfiles (CLI, no schedule):
+// an included Taskfile's `output: {group: {error_only: true}}` keeps its error_only; a task of a
+// non-flattened include without an explicit prefix gets its full (namespaced) name as prefix.
+func c17IncludedOutputUnit() *Unit {
+	name := "cli/output-settings-of-included-taskfiles"
+	return &Unit{Name: name, Weight: 1, Custom: func(u *Unit, dir string, deadline time.Time) *vlab.UnitResult {
+		res := &vlab.UnitResult{SigCounts: map[string]int{}, Extra: map[string]any{}}
+		n := 0
+		var samples []any
+		add := func(v vlab.Violation, files map[string]string, args []string) {
+			v.Scenario = name
+			v.Input = map[string]any{"files": files, "args": args}
+			res.SigCounts[v.Sig]++
+			if res.SigCounts[v.Sig] == 1 {
+				res.Violations = append(res.Violations, v)
+			}
+		}
+		write := func(files map[string]string) {
+			os.RemoveAll(dir)
+			os.MkdirAll(dir, 0o755)
+			for rel, c := range files {
+				os.WriteFile(filepath.Join(dir, rel), []byte(c), 0o644)
+			}
+		}
+		// 1. error_only declared by the included Taskfile, with and without begin/end
+		for _, extra := range []string{"", ", begin: '<{{.TASK}}', end: '>{{.TASK}}'"} {
+			files := map[string]string{
+				"Taskfile.yml": "version: '3'\nincludes:\n  inc: ./inc.yml\ntasks:\n  ok:\n    cmds:\n      - echo root-ok-output\n  bad:\n    cmds:\n      - echo root-bad-output; exit 3\n",
+				"inc.yml":      "version: '3'\noutput:\n  group: {error_only: true" + extra + "}\ntasks:\n  ok:\n    cmds:\n      - echo inc-ok-output\n",
+			}
+			write(files)
+			for _, req := range []string{"ok", "inc:ok", "bad"} {
+				args := []string{"--silent", req}
+				so, se, rc := RunCLI(dir, nil, "", args...)
+				n++
+				if len(samples) < 3 {
+					samples = append(samples, map[string]any{"request": req, "status": rc, "stdout": so})
+				}
+				shown := strings.Contains(so+se, "-output")
+				failed := req == "bad"
+				if shown != failed || (rc != 0) != failed {
+					add(vlab.V("C17", "group_block", "error_only:declared_by_included_taskfile", fmt.Sprintf("request %q (command %s): output shown=%v, status %d; with error_only the block appears iff the command failed (stdout %q)", req, map[bool]string{true: "fails", false: "succeeds"}[failed], shown, rc, so)), files, args)
+				}
+			}
+		}
+		// 2. prefixes of included tasks
+		files := map[string]string{
+			"Taskfile.yml": "version: '3'\noutput: prefixed\nincludes:\n  a: ./lib.yml\n  b: ./lib.yml\n  f:\n    taskfile: ./lib.yml\n    flatten: true\n    excludes: [custom]\ntasks:\n  all:\n    deps: ['a:build', 'b:build', 'a:custom']\n",
+			"lib.yml":      "version: '3'\ntasks:\n  build:\n    cmds:\n      - echo line-of-{{.TASK}}\n  custom:\n    prefix: mine\n    cmds:\n      - echo line-of-custom\n",
+		}
+		write(files)
+		for _, req := range []string{"a:build", "b:build", "build", "a:custom", "all"} {
+			args := []string{"--silent", req}
+			so, se, rc := RunCLI(dir, nil, "", args...)
+			n++
+			for _, l := range strings.Split(strings.TrimSpace(so), "\n") {
+				l = strings.TrimSpace(l)
+				if l == "" {
+					continue
+				}
+				want := ""
+				switch {
+				case strings.HasSuffix(l, "line-of-custom"):
+					want = "[mine] line-of-custom"
+				case strings.Contains(l, "line-of-"):
+					tn := l[strings.Index(l, "line-of-")+8:]
+					want = "[" + tn + "] line-of-" + tn
+				}
+				if l != want {
+					add(vlab.V("C17", "prefixed_line", "prefix_of_included_task", fmt.Sprintf("request %q printed %q, expected %q (every line carries its task's prefix; status %d %s)", req, l, want, rc, firstN(se, 80))), files, args)
+				}
+			}
+			if rc != 0 || strings.TrimSpace(so) == "" {
+				add(vlab.V("C17", "prefixed_bytes", "lost:included_task", fmt.Sprintf("request %q: status %d, stdout %q", req, rc, so)), files, args)
+			}
+		}
+		res.Extra["samples"] = samples
+		res.Stats = vlab.Stats{Scenario: name, Execs: n, States: n, Transitions: n, Outcomes: 2, Exhaustive: true}
 		return res
 	}}
 }
